@@ -42,6 +42,11 @@ func fieldIndex(t types.Type, name string) int {
 
 func registerHTTP(e *Engine) {
 	e.reg(zz+"SetHTTPHandler", func(in *interp, fr *frame, a []value) value { in.httpHandler = a[0]; return nil })
+	// func (f HandlerFunc) ServeHTTP(w, r) { f(w, r) }
+	e.reg("(net/http.HandlerFunc).ServeHTTP", func(in *interp, fr *frame, a []value) value {
+		in.call(fr, 0, a[0], []value{a[1], a[2]})
+		return nil
+	})
 	e.reg(zz+"HTTPAddr", func(in *interp, fr *frame, a []value) value { return "leader.test:1" })
 	e.reg("(*net/http.Client).Get", func(in *interp, fr *frame, a []value) value {
 		if in.httpHandler == nil {
